@@ -570,6 +570,11 @@ def check(rep):
         ops = [['open', 'ok'], ['channel', 1], ['die-partial', rng.choice(['eof', 'reset']), rng.choice([1, 3, 6, 7, 8, 11, 20])],
                ['close', 1, False], ['open', 'ok'], ['channel', 1], ['close', 1, False]]
         jobs.append(({'hb': 0, 'ops': ops}, rng.randrange(1 << 30)))
+    # an open() that times out on a connection whose heartbeat interval is longer than the handshake time-out (no check fires
+    # in between that could clean up by accident): nothing of the failed attempt is left, a later open works
+    for _ in range(6 if not thorough else 60):
+        ops = [['open', 'silent']] + rng.choice([[['open', 'ok'], ['channel', 1]], [], [['open', 'silent']]]) + [['close', 1, False]]
+        jobs.append(({'hb': 120, 'ops': ops}, rng.randrange(1 << 30)))
     # close() exactly when the heartbeat timer fires, under heavy pre-emption (stop() against the re-arm)
     for _ in range(160 if not thorough else 3000):
         ops = [['open', 'ok']]
